@@ -20,7 +20,7 @@ func VH_C13_tree() {
 	maxb, sel, opt := v.Param("MAXB", 1), v.Param("S", 15), v.Param("OPT", 0)
 	m.Reset()
 	src, dst := m.Root("src"), m.Root("dst")
-	symCopyTree(src, maxb, sel)
+	vh_symCopyTree(src, maxb, sel)
 	srcSnap := m.Snapshot(src)
 	var ci CopyInfo
 	var wantUID, wantGID uint32
@@ -61,7 +61,7 @@ func VH_C13_tree() {
 	v.Assert(len(dstSnap) == len(srcSnap), "the copy has exactly the paths of the source")
 	for i := range srcSnap {
 		s := &srcSnap[i]
-		d := findEntry(dstSnap, s.Path)
+		d := vh_findEntry(dstSnap, s.Path)
 		if d == nil {
 			v.Assert(false, "every source path exists in the copy")
 			continue
@@ -70,7 +70,7 @@ func VH_C13_tree() {
 		v.Assert(d.Target == s.Target, "symlink targets are copied, not followed")
 		v.Assert(d.Rdev == s.Rdev, "device numbers are equal")
 		if s.Kind != m.KSymlink {
-			v.Assert(xattrsEqual(s, d), "xattrs are equal")
+			v.Assert(vh_xattrsEqual(s, d), "xattrs are equal")
 		}
 		if s.Kind == m.KFile {
 			v.Assert(string(d.Data) == string(s.Data), "file bytes are equal")
@@ -103,7 +103,7 @@ func VH_C13_tree() {
 		}
 		for k := range srcSnap {
 			if k != i && srcSnap[k].Kind == m.KFile && s.Kind == m.KFile {
-				v.Assert(sameGroup(srcSnap, s.Path, srcSnap[k].Path) == sameGroup(dstSnap, s.Path, srcSnap[k].Path), "files sharing an inode in the source share one in the copy")
+				v.Assert(vh_sameGroup(srcSnap, s.Path, srcSnap[k].Path) == vh_sameGroup(dstSnap, s.Path, srcSnap[k].Path), "files sharing an inode in the source share one in the copy")
 			}
 		}
 		if s.Kind != m.KDir {
